@@ -41,7 +41,7 @@ def almVector (l : Lunar) : List String :=
     sl (dayYi mIdx dIdx), sl (dayJi mIdx dIdx), sl (dayYi mIdxE dIdx), sl (dayJi mIdxE dIdx),
     sl (dayJiShen l.month dIdx), sl (dayXiongSha l.month dIdx), sl (timeYi dIdxE tIdx), sl (timeJi dIdxE tIdx),
     -- 10 time attributes
-    positionXi tg, positionYangGui tg, positionYinGui tg, strGetD Gen.Tables.LunarUtil.POSITION_FU (tg + 1), positionCai tg,
+    positionXi tg, positionYangGui tg, positionYinGui tg, positionFu tg 2, positionCai tg,
     chong tz, chongGan tg, chongGanTie tg, chongShengXiao tz, chongDesc tg tz, sha tz,
     -- 11 xun
     EightChar.xun l.yearGanIndex l.yearZhiIndex, EightChar.xun l.yearGanIndexByLiChun l.yearZhiIndexByLiChun, EightChar.xun l.yearGanIndexExact l.yearZhiIndexExact,
